@@ -46,3 +46,35 @@ Theorem C14_history_preserves_wf : forall ops dec, DecWf dec -> DecWf (fold_left
 Proof. exact history_wf. Qed.
 Check C14_history_preserves_wf : forall ops dec, DecWf dec -> DecWf (fold_left do_rop ops dec).
 Print Assumptions C14_history_preserves_wf.
+
+(* ---------- the raw LZMA2 decoder (proofs in Proofs/ResetFresh2.v) ---------- *)
+From LZ Require Import Model.Lzma2 Proofs.ResetFresh2.
+
+Theorem C14_lzma2_reset_equals_new : forall (d0 : lzma2_decoder) (ops : list rop2) (fuel : positive) (w : io),
+  lzma2_new = Done d0 ->
+  let dec := fold_left do_rop2 ops d0 in
+  exists dec' : lzma2_decoder,
+    lzma2_reset dec = Done dec' /\
+    fst (lzma2_decompress fuel dec' w) = fst (lzma2_decompress fuel d0 w) /\
+    snd (snd (lzma2_decompress fuel dec' w)) = snd (snd (lzma2_decompress fuel d0 w)).
+Proof. exact lzma2_reset_equals_new. Qed.
+Check C14_lzma2_reset_equals_new : forall (d0 : lzma2_decoder) (ops : list rop2) (fuel : positive) (w : io),
+  lzma2_new = Done d0 ->
+  let dec := fold_left do_rop2 ops d0 in
+  exists dec' : lzma2_decoder,
+    lzma2_reset dec = Done dec' /\
+    fst (lzma2_decompress fuel dec' w) = fst (lzma2_decompress fuel d0 w) /\
+    snd (snd (lzma2_decompress fuel dec' w)) = snd (snd (lzma2_decompress fuel d0 w)).
+Print Assumptions C14_lzma2_reset_equals_new.
+
+(* the stale size field that survives a reset is dead for LZMA2 *)
+Theorem C14_lzma2_stale_size_is_dead : forall (fuel : positive) (d1 d2 : lzma2_decoder) (w : io),
+  (exists u : option N, l2_state d1 = set_unpacked_size (l2_state d2) u) ->
+  fst (lzma2_decompress fuel d1 w) = fst (lzma2_decompress fuel d2 w) /\
+  snd (snd (lzma2_decompress fuel d1 w)) = snd (snd (lzma2_decompress fuel d2 w)).
+Proof. exact lzma2_decompress_unpacked_dead. Qed.
+Check C14_lzma2_stale_size_is_dead : forall (fuel : positive) (d1 d2 : lzma2_decoder) (w : io),
+  (exists u : option N, l2_state d1 = set_unpacked_size (l2_state d2) u) ->
+  fst (lzma2_decompress fuel d1 w) = fst (lzma2_decompress fuel d2 w) /\
+  snd (snd (lzma2_decompress fuel d1 w)) = snd (snd (lzma2_decompress fuel d2 w)).
+Print Assumptions C14_lzma2_stale_size_is_dead.
